@@ -69,6 +69,7 @@ type c04Res struct {
 	Reveals  []vfReveal  `json:"reveals"`
 	Marks    []vfMark    `json:"marks"`
 	Returned bool        `json:"returned"`
+	RelayFirst *vfBytes  `json:"relay_first"`
 	EarlyAnswered bool   `json:"early_answered"` // banner / echo of the early data arrived before the client sent anything more
 	Ms       int64       `json:"ms"`
 }
@@ -81,6 +82,7 @@ type c04Conn struct {
 	reads []int
 	calls []vfCall
 	done  bool // a transport answered "found": the relay owns the connection from here on
+	relayFirst *vfBytes // first non-empty Read the relay made on the connection it was handed
 }
 
 func (c *c04Conn) RemoteAddr() net.Addr { return vfClientAddr }
@@ -92,6 +94,12 @@ func (c *c04Conn) Read(p []byte) (int, error) {
 	}
 	c.mu.Unlock()
 	return n, err
+}
+func (c *c04Conn) vfLogRelayRead(b []byte) {
+	c.mu.Lock()
+	v := vfSpec(b)
+	c.relayFirst = &v
+	c.mu.Unlock()
 }
 func (c *c04Conn) vfLogCall(v vfCall) {
 	c.mu.Lock()
@@ -458,6 +466,7 @@ func c04Run(s *vfStation, c c04Case) (res c04Res) {
 	sc.mu.Lock()
 	res.Reads = append([]int{}, sc.reads...)
 	res.Calls = append([]vfCall{}, sc.calls...)
+	res.RelayFirst = sc.relayFirst
 	sc.mu.Unlock()
 	for _, cl := range res.Calls {
 		if cl.Res == "found" {
